@@ -168,8 +168,8 @@ def real_phase(run, prop, tier, wd, binary, scs, tr_inv, mon_inv, mon_props, tag
     return drift
 
 
-def run_check(prop, tier, replay=None):
-    run = vlib.Run(prop, tier, "model_checking")
+def run_check(prop, tier, replay=None, label=None):
+    run = vlib.Run(label or prop, tier, "model_checking")
     run.write_evidence = replay is None
     rng = random.Random(run.seed * 31337 + int(prop[1:]))
     wd = vlib.scratch_dir(prop)
